@@ -281,6 +281,8 @@ def structured_cases(rng, rounds):
 def correspondence(seed, tier):
     n = budget(tier, 25, 300)
     rs = [corr.run_corr(seed * 1000 + 50 + k, "C05_%d" % k, n, 25, {"with_random": False, "with_lines": True}) for k in range(budget(tier, 1, 3))]
+    # slabs with the slab-only temperature models (plate model, mass conserving: ridge tables, reference models, spline on/off)
+    rs += [corr.run_corr(seed * 1000 + 55 + k, "C05_slab_%d" % k, max(10, n // 2), 30, {"with_random": False, "with_lines": True, "allow": ["subducting plate"], "slab_models": 0.7}) for k in range(budget(tier, 1, 3))]
     # the structured single-model worlds of the oracle (other seed), model vs library bit for bit
     rng = random.Random(seed * 7907 + 55)
     wdir = proto.workdir("C05_struct")
